@@ -8,10 +8,11 @@ Import ListNotations.
    interpreter, both SDKs) every index satisfies IInv:
      refs = { primary key -> index key } over exactly the stored items that have the index's key attributes,
      sortedKeys = the sorted multiset of those index keys (so count() is the number of such items).
-   Side condition EX: UpdateTable/AddIndex never re-declare an attribute with a different type. *)
+   Side condition EX: UpdateTable/AddIndex never re-declare an attribute with a different type
+   (UAny: no condition on UpdateItem). *)
 Theorem C03_index_invariant_reachable :
   forall lm lu sdk ops cn tn c t,
-    run_env EX lm lu sdk [] ops ->
+    run_env EX UAny lm lu sdk [] ops ->
     lookup cn (fst (run lm lu sdk [] ops)) = Some c -> lookup tn (c_tables c) = Some t -> XInv t.
 Proof. exact XInv_reachable. Qed.
 
